@@ -28,6 +28,7 @@ type c17Case struct {
 	Recs  []c17Rec `json:"recs,omitempty"`
 	CRLF  bool     `json:"crlf,omitempty"`
 	Deliv int      `json:"deliv,omitempty"` // roundtrip: how the reader hands the bytes over (deliveryNames)
+	Fail  int      `json:"fail,omitempty"`  // roundtrip: before anything else records are written to a writer that takes only this many bytes and then fails
 	// genbank mode
 	Version string `json:"version,omitempty"`
 	Def     string `json:"definition,omitempty"`
@@ -57,6 +58,19 @@ func (r c17Rec) residues() []byte {
 		p[i] = fastaAlphabet[(r.Seed+i*step)%len(fastaAlphabet)]
 	}
 	return p
+}
+
+// limitedWriter accepts left bytes and fails from then on (a short write with an error, as a full disk gives).
+type limitedWriter struct{ left int }
+
+func (w *limitedWriter) Write(p []byte) (int, error) {
+	if len(p) <= w.left {
+		w.left -= len(p)
+		return len(p), nil
+	}
+	n := w.left
+	w.left = 0
+	return n, fmt.Errorf("no space left on device")
 }
 
 type fastaRead struct {
@@ -134,6 +148,13 @@ func c17Check(c c17Case) *Violation {
 		var buf bytes.Buffer
 		var werr error
 		if pi := guard(func() {
+			if c.Fail > 0 {
+				// an earlier write of this process that went wrong half-way (disk full, closed pipe): whatever it left
+				// behind must not show up in what is written next
+				bad := seqio.NewWriter(&limitedWriter{left: c.Fail}, seqio.FastaFile)
+				bad.WriteSeq(seqio.Fasta{Desc: "lost record", Data: bytes.Repeat([]byte("T"), 300)})
+				bad.WriteSeq(seqio.GenBank{Fields: seqio.GenBankFields{LocusName: "LOST", Molecule: gts.DNA, Topology: gts.Linear, Version: "LOST.1", Definition: "lost"}, Origin: seqio.NewOrigin(bytes.Repeat([]byte("g"), 150))})
+			}
 			w := seqio.NewWriter(&buf, seqio.FastaFile)
 			for _, r := range c.Recs {
 				if _, err := w.WriteSeq(seqio.Fasta{Desc: r.Desc, Data: r.residues()}); err != nil {
@@ -348,6 +369,9 @@ func c17Gen(t *rapid.T) c17Case {
 	}
 	n := rapid.IntRange(1, 5).Draw(t, "nrec")
 	c := c17Case{Mode: "roundtrip", CRLF: rapid.Bool().Draw(t, "crlf")}
+	if rapid.IntRange(0, 3).Draw(t, "failedbefore") == 0 {
+		c.Fail = rapid.SampledFrom([]int{1, 5, 12, 13, 14, 70, 84, 85, 200, 311}).Draw(t, "fail")
+	}
 	if rapid.IntRange(0, 2).Draw(t, "shortreads") == 0 {
 		c.Deliv = rapid.IntRange(1, len(deliveryNames)-1).Draw(t, "deliv")
 	}
@@ -461,6 +485,16 @@ func TestC17(t *testing.T) {
 		}
 	}
 	edt.done(true)
+	// after a failed write: the same round trips in a process whose previous FASTA write broke off after k bytes
+	efw := enumPart(t, c17Prop, st, "after-failed-write")
+	for _, k := range []int{1, 2, 12, 13, 14, 15, 83, 84, 85, 86, 155, 156, 226, 300, 310, 311, 312, 313, 314, 400} {
+		for _, n := range []int{0, 1, 70, 140, 300} {
+			if !efw.try(c17Case{Mode: "roundtrip", Fail: k, Recs: []c17Rec{{Desc: "first after the failure", Len: n, Seed: 3, Step: 1}, {Desc: "second", Len: 71, Seed: 5, Step: 2}}}) {
+				return
+			}
+		}
+	}
+	efw.done(true)
 	// deliveries: the same streams through readers that hand the bytes over in other portions
 	ed := enumPart(t, c17Prop, st, "deliveries")
 	dl := []int{0, 1, 69, 70, 71, 140, 700, 3900, 4100}
